@@ -280,7 +280,7 @@ func TestC05(t *testing.T) {
 		"pair:ord-disjoint", "pair:ord-equal", "pair:ord-b-subset-of-a")
 	cnt.require(t, "C05", 1, "pair:ord-permutation", "pair:ord-partial-overlap", "pair:ord-overlap-b-first-key-new", "expect:fail-single-reason", "pair:ll-permuted", "pair:binary-leaf-conflict",
 		"pair:ul-equal", "pair:ul-disjoint", "expect:no-verdict")
-	cnt.require(t, "C05", 0.4, "pair:ord-a-strict-subset-of-b", "pair:ul-permuted", "pair:ul-partial")
+	cnt.require(t, "C05", 0.3, "pair:ul-partial")
 }
 
 func intersectsLists(r *refResult) bool {
